@@ -619,6 +619,22 @@ fn finding_stream(rng: &mut Rng, shrink: usize) -> Stream {
     st
 }
 
+/// a marker-free garbage run about as long as the low mark between messages: with short reads the buffered window can end
+/// 1..3 bytes into the marker of the message that follows the run (a resynchronisation must not lose that marker)
+fn long_garbage_stream(rng: &mut Rng, g: usize) -> Stream {
+    let fl = F_WEID | F_WTMS | F_UEH;
+    let mut st = Stream { serial: false, segs: vec![] };
+    let pl = rng.bytes(10);
+    st.segs.push(Seg::M(rand_msg(rng, false, fl, pl)));
+    st.segs.push(Seg::G(rand_garbage(rng, g)));
+    for _ in 0..3 {
+        let pl = small_payload(rng);
+        st.segs.push(Seg::M(rand_msg(rng, false, fl, pl)));
+    }
+    sanitize(&mut st, rng);
+    st
+}
+
 fn chunk_mode(a: &Args, t: &mut Trace) -> Value {
     let seed = a.num("--seed", 1);
     let mut rng = Rng::new(seed ^ 0x5eed_c04);
@@ -641,6 +657,10 @@ fn chunk_mode(a: &Args, t: &mut Trace) -> Value {
             0 => finding_stream(&mut rng, 0),
             1 => finding_stream(&mut rng, 2),
             2 => finding_stream(&mut rng, 4),
+            3 => long_garbage_stream(&mut rng, lm - 1),
+            4 => long_garbage_stream(&mut rng, lm - 2),
+            5 => long_garbage_stream(&mut rng, lm - 3),
+            6 => { let g = lm + 4096 + rng.below(3) as usize; long_garbage_stream(&mut rng, g) }
             _ => gen_stream(&mut rng, match si % 4 { 0 => 0, 1 => 1, 2 => 2, _ => 3 }),
         };
         let lay = st.layout();
@@ -681,6 +701,14 @@ fn chunk_mode(a: &Args, t: &mut Trace) -> Value {
             ("1000".into(), Mode::Chunk(1000), vec![]),
             ("4096".into(), Mode::Chunk(4096), vec![]),
         ];
+        if (3..=6).contains(&si) {
+            // first read ends k bytes into the marker of the message after the long garbage run (then everything is available)
+            let after = lay.msgs[1].0;
+            for k in 1..=3usize {
+                scheds.push((format!("straddle{}", k), Mode::FirstThenFull(after + k), vec![]));
+            }
+            scheds.push(("straddle-lm".into(), Mode::FirstThenFull(lay.msgs[0].1 + lm), vec![]));
+        }
         for j in 0..n_sched_rand {
             scheds.push((format!("random{}", j), Mode::Random, vec![]));
         }
